@@ -1,4 +1,5 @@
 import DFV.Lemmas.C13Reject
+import DFV.Lemmas.C13StoreSim
 import DFV.Model.C13
 /-!
 # C13 — geometric invariants and in-place == copy after any transformation sequence
@@ -798,5 +799,183 @@ negative-factor in-place scale about a far reference point, an odd quarter turn 
 translation is accepted and ends in a state that satisfies the invariant. -/
 example : (⟨[0, 0, 0], [10, 8, 6], ["x", "y", "z"], ["a", "b", "c"], 1/1000000000000⟩ : Region).invB = true := by
   decide +kernel
+
+/-! ## round 3: the store model — who holds which Region object
+
+`DFV/Model/C13Store.lean` models Region and Mesh OBJECTS: the constructor stores a COPY of the Region
+object it is given as `region=` (repo fix 12c808de, finding D134 — before it the object was kept by
+reference and shared) and COPIES of the subregion candidates (as the setter does); the in-place forms call the in-place method of the mesh's own Region objects one after the other.  The
+theorems below say that the value model used everywhere else (`stepM`, `mkMesh?`, `setSubs`) is a sound
+abstraction of it, which objects a statement can change, and what holds after every session. -/
+open DFV.S
+
+/-- **After ANY session** — any finite list of statements from the empty store: Region objects
+created, meshes built on any Region objects (the same one for several meshes included), subregions
+assigned, in-place and copying steps on meshes and on ANY Region object (also objects a mesh holds),
+accepted, rejected or raising half-way — the store is good: every Region object is a proper region;
+every mesh object has a region object, positive counts one per direction, a lower-cased checked `bc`,
+and subregion objects that were created after its region object, carry its dimension names and are
+pairwise different objects; NO Region object is the subregion of two meshes or twice of one; and the
+region object of a mesh is held by no other mesh (`RegExcl`).  (Induction over the session;
+`exec_good` / `exec_regExcl` are the steps.) -/
+theorem store_invariant_after_any_session (sts : List Stmt) : Good (run Store.empty sts) ∧ RegExcl (run Store.empty sts) :=
+  ⟨run_good Store.empty empty_good sts,
+   run_regExcl Store.empty empty_good (fun i j a b ha => by simp [Store.empty] at ha) sts⟩
+
+/-- what "good" gives for one mesh object: its Region objects are its own in the sense of `MeshOk`
+(ids valid, subregion objects pairwise different and different from the region object), and its VALUE
+satisfies the mesh invariant, has proper subregions with the mesh's dimension names, and a checked `bc` -/
+theorem good_store_mesh (s : Store) (hg : Good s) (mo : MeshObj) (hmem : mo ∈ s.meshes) :
+    MeshOk s mo ∧ (absMesh s mo).Inv ∧ SubsProper (absMesh s mo) ∧ BcInv (absMesh s mo) :=
+  good_mesh s hg mo hmem
+
+/-- **Exclusive ownership after ANY session — no discipline of the caller is needed any more.**  Since
+repo fix 12c808de the constructor gives every mesh a region object of its own, as the setter always did
+for the subregions; so after any session whatsoever (the same Region object as `region=` of many meshes,
+the same candidate objects for many meshes, a mesh's own region or subregions as candidates or as the
+`region=` of another mesh, in-place steps on anything) no Region object is reachable from two meshes,
+nor twice from one: the footprints (region object + subregion objects) of different mesh objects are
+disjoint and each footprint lists pairwise different objects.  What the caller can still do is move a
+mesh's OWN objects through handles obtained from the mesh (`mesh.region`, `mesh.subregions[name]`):
+that changes that one object and the value of that one mesh only (`region_step_frame`). -/
+theorem exclusive_ownership_after_any_session (sts : List Stmt)
+    (i j : Nat) (mo mo' : MeshObj) (hi : (run Store.empty sts).meshes[i]? = some mo) (hj : (run Store.empty sts).meshes[j]? = some mo') :
+    (footprint mo).Nodup ∧ (i ≠ j → ∀ a, a ∈ footprint mo → a ∉ footprint mo') :=
+  footprints_disjoint _ (run_good _ empty_good sts)
+    (run_regExcl _ empty_good (fun i j a b ha => by simp [Store.empty] at ha) sts) i j mo mo' hi hj
+
+/-- **Two meshes built on ONE Region object do not share it** (the witness of finding D134, now the
+positive statement): after `R = Region(...); m1 = Mesh(region=R, …); m2 = Mesh(region=R, …);
+m1.translate((1, 1), inplace=True)` the two meshes hold two different region objects (ids 1 and 2,
+neither is `R` = id 0), `m1`'s has moved, `m2`'s and the caller's `R` have not. -/
+theorem region_not_shared_witness :
+    (run Store.empty [.newRegion ⟨[0, 0], [4, 2], ["x", "y"], ["m", "m"], 1/1000000000000⟩,
+        .newMesh 0 [4, 2] "" [], .newMesh 0 [4, 2] "" [], .meshOp 0 (.translate [1, 1] true)]).meshes.map (·.region) = [1, 2] ∧
+    (run Store.empty [.newRegion ⟨[0, 0], [4, 2], ["x", "y"], ["m", "m"], 1/1000000000000⟩,
+        .newMesh 0 [4, 2] "" [], .newMesh 0 [4, 2] "" [], .meshOp 0 (.translate [1, 1] true)]).regs.map (·.pmin)
+      = [[0, 0], [1, 1], [0, 0]] := by
+  decide +kernel
+
+/-- **A step on one Region object through a handle changes that object only** (good store): after
+`obj.translate / scale / rotate90` in either form, accepted or not, on Region object `rid` — the caller's,
+or a mesh's own obtained as `mesh.region` / `mesh.subregions[name]` — the mesh objects are the same,
+every other Region object keeps its value, every mesh that does not hold `rid` keeps its value; the
+copying form changes no existing object and no mesh at all. -/
+theorem region_step_frame (s : Store) (hg : Good s) (rid : Nat) (op : Op) :
+    (exec s (.regionOp rid op)).1.meshes = s.meshes ∧
+    (∀ i, i < s.regs.length → (i ≠ rid ∨ op.inplace = false) → (exec s (.regionOp rid op)).1.reg i = s.reg i) ∧
+    (∀ mo, mo ∈ s.meshes → (rid ∉ footprint mo ∨ op.inplace = false) →
+      absMesh (exec s (.regionOp rid op)).1 mo = absMesh s mo) :=
+  regionOp_frame s hg rid op
+
+/-- **An accepted in-place mesh step, in the store** (good store, the mesh's `bc` well-formed): the
+statement evaluates to the mesh object ITSELF, creates no object, leaves the mesh object holding the
+same Region objects, and the mesh's value afterwards is EXACTLY the receiver state of the value model
+`stepM` — although the store moves the Region objects one after the other, `scale` takes the default
+reference point before and `rotate90` reads `self.region.centre` after the region object has been
+turned (a region turned about its own centre keeps its centre), and `rotate90` assigns `bc` through the
+setter (lower-casing and check, which cannot fail here). -/
+theorem inplace_mesh_step_in_store (s : Store) (hg : Good s) (mid : Nat) (mo : MeshObj) (op : Op)
+    (hmo : s.meshes[mid]? = some mo) (hb : BcWf (absMesh s mo)) (T1 T : Mesh)
+    (h : stepM (absMesh s mo) (op.withInplace true) = .ok (T1, T)) :
+    ∃ s' mo', meshInplace s mid op = (s', some (.mesh mid)) ∧ s'.regs.length = s.regs.length ∧
+      (∀ i, i ∉ footprint mo → s'.reg i = s.reg i) ∧
+      s'.meshes = setAt s.meshes mid mo' ∧ mo'.region = mo.region ∧ mo'.subs = mo.subs ∧ absMesh s' mo' = T := by
+  obtain ⟨hok, hm, _, _⟩ := good_mesh s hg mo (List.mem_of_getElem? hmo)
+  exact meshInplace_ok s mid mo op hmo hok hm hb T1 T h
+
+/-- **A rejected in-place mesh step changes NOTHING in the store** (good store) — proved in the store
+model, where an exception half-way WOULD leave objects moved: the value model rejects only when the
+call on the region object raises, which happens before the first assignment; the subregion objects
+accept whatever the region accepted. -/
+theorem rejected_inplace_mesh_step_changes_nothing (s : Store) (hg : Good s) (mid : Nat) (mo : MeshObj) (op : Op)
+    (hmo : s.meshes[mid]? = some mo) (e : Err) (h : stepM (absMesh s mo) (op.withInplace true) = .error e) :
+    meshInplace s mid op = (s, none) :=
+  meshInplace_err s hg mid mo op hmo e h
+
+/-- **An in-place step on one mesh changes no other mesh and none of the caller's Region objects**
+(good store, region objects exclusive — e.g. after any disciplined session): every other mesh object
+is still there with the SAME value, every Region object outside the mesh's footprint is unchanged,
+no object is created. -/
+theorem inplace_step_frame (s : Store) (hg : Good s) (he : RegExcl s) (mid : Nat) (mo : MeshObj) (op : Op)
+    (hmo : s.meshes[mid]? = some mo) (hb : BcWf (absMesh s mo)) (T1 T : Mesh)
+    (h : stepM (absMesh s mo) (op.withInplace true) = .ok (T1, T)) :
+    ∃ s' mo', meshInplace s mid op = (s', some (.mesh mid)) ∧ s'.meshes[mid]? = some mo' ∧ absMesh s' mo' = T ∧
+      footprint mo' = footprint mo ∧
+      (∀ j moj, j ≠ mid → s.meshes[j]? = some moj → s'.meshes[j]? = some moj ∧ absMesh s' moj = absMesh s moj) ∧
+      (∀ i, i ∉ footprint mo → s'.reg i = s.reg i) ∧ s'.regs.length = s.regs.length :=
+  meshInplace_frame s hg he mid mo op hmo hb T1 T h
+
+/-- **The copying mesh step in the store**: accepted exactly when the value model accepts it; then ONE
+mesh object is appended, its value is what `stepM` returns, it is built entirely from NEW Region
+objects (nothing shared with the receiver or anybody else), and no existing object changes; a rejected
+copying step changes nothing. -/
+theorem copy_mesh_step_in_store (s : Store) (mid : Nat) (mo : MeshObj) (op : Op) (hmo : s.meshes[mid]? = some mo) :
+    (∀ y T, stepM (absMesh s mo) (op.withInplace false) = .ok (y, T) →
+      ∃ s' mo', meshCopy s mid op = (s', some (.mesh s.meshes.length)) ∧ s'.meshes = s.meshes ++ [mo'] ∧ absMesh s' mo' = T ∧
+        (∀ a, a ∈ footprint mo' → s.regs.length ≤ a) ∧ (∀ j, j < s.regs.length → s'.reg j = s.reg j)) ∧
+    (∀ e, stepM (absMesh s mo) (op.withInplace false) = .error e → meshCopy s mid op = (s, none)) :=
+  meshCopy_sound s mid mo op hmo
+
+/-- **Constructor and setter in the store**: `Mesh(region=<rid>, …, subregions={name: <id>})` and
+`mesh.subregions = {name: <id>}` are accepted exactly when the value model (`mkMesh?` / `setSubs`) accepts
+the VALUES of the named objects; a new mesh holds a NEW region object (with the value of the given one:
+repo fix 12c808de) and NEW Region objects as subregions, whose values are what the value model stores (the
+mesh region's names, units, tolerance); no existing Region object — the given region and the candidates
+included — is changed. -/
+theorem constructor_and_setter_in_store (s : Store) (rid : Nat) (n : List Nat) (bc : String) (subs : List (String × Nat))
+    (hrid : rid < s.regs.length) (hids : ∀ p ∈ subs, p.2 < s.regs.length) (mid : Nat) (mo : MeshObj)
+    (hmo : s.meshes[mid]? = some mo) (hmr : mo.region < s.regs.length) :
+    ((∀ m', mkMesh? (s.reg rid) n bc (valsOf s subs) = .ok m' →
+      ∃ s' mo', mkMeshS s rid n bc subs = .ok s' ∧ s'.meshes = s.meshes ++ [mo'] ∧ absMesh s' mo' = m' ∧
+        mo'.region = s.regs.length ∧ (∀ p ∈ mo'.subs, s.regs.length < p.2) ∧ (∀ j, j < s.regs.length → s'.reg j = s.reg j)) ∧
+     (∀ e, mkMesh? (s.reg rid) n bc (valsOf s subs) = .error e → ∃ e', mkMeshS s rid n bc subs = .error e')) ∧
+    ((∀ m', T.setSubs (absMesh s mo) (valsOf s subs) = .ok m' →
+      ∃ s' mo', exec s (.setSubs mid subs) = (s', some (.mesh mid)) ∧ s'.meshes = setAt s.meshes mid mo' ∧
+        absMesh s' mo' = m' ∧ mo'.region = mo.region ∧ (∀ p ∈ mo'.subs, s.regs.length ≤ p.2) ∧
+        (∀ j, j < s.regs.length → s'.reg j = s.reg j)) ∧
+     (∀ e, T.setSubs (absMesh s mo) (valsOf s subs) = .error e → exec s (.setSubs mid subs) = (s, none))) :=
+  ⟨mkMeshS_sound s rid n bc subs hrid hids, setSubs_sound s mid mo subs hmo hmr hids⟩
+
+/-- **A whole history of in-place steps in the store IS the value model's history.**  Good store, region
+objects exclusive, mesh object `mid` with a value satisfying `SubInv` and `BcWf`; `ops` any list of
+in-place steps (rejected ones included).  After the session `[mesh.op₁(inplace=True), …]` the mesh object
+is the same object holding the same Region objects and its VALUE is `runM value ops` — so
+`reachable_inv_mesh`, `cells_tile_after_history`, `reachable_bc_wellformed`, `history_forms_agree_mesh`,
+`DFV.C14.runM_subInv` are statements about the store; every other mesh object has its old value, every
+Region object outside the mesh's footprint (the caller's objects) is unchanged, nothing was created. -/
+theorem inplace_history_in_store (s : Store) (hg : Good s) (he : RegExcl s) (mid : Nat) (mo : MeshObj)
+    (hmo : s.meshes[mid]? = some mo) (hs : SubInv (absMesh s mo)) (hb : BcWf (absMesh s mo)) (ops : List Op)
+    (hin : ∀ op ∈ ops, op.inplace = true) :
+    ∃ mo', (run s (ops.map (Stmt.meshOp mid))).meshes[mid]? = some mo' ∧
+      absMesh (run s (ops.map (Stmt.meshOp mid))) mo' = runM (absMesh s mo) ops ∧ footprint mo' = footprint mo ∧
+      (∀ j moj, j ≠ mid → s.meshes[j]? = some moj →
+        (run s (ops.map (Stmt.meshOp mid))).meshes[j]? = some moj ∧ absMesh (run s (ops.map (Stmt.meshOp mid))) moj = absMesh s moj) ∧
+      (∀ i, i ∉ footprint mo → (run s (ops.map (Stmt.meshOp mid))).reg i = s.reg i) ∧
+      (run s (ops.map (Stmt.meshOp mid))).regs.length = s.regs.length :=
+  inplace_history s hg he mid mo hmo hs hb ops hin
+
+/-- non-vacuity of the store theorems: the session — two caller-made Region objects, a mesh built on the
+first with the second as candidate under two names, an in-place quarter turn, a copying scale — is
+accepted statement by statement: the mesh holds a copy of the region (id 2) and two different copies of
+the candidate (ids 3, 4), the caller's objects (ids 0, 1) are where they were, the copy holds three new
+objects. -/
+example : (run Store.empty [.newRegion ⟨[0, 0], [4, 2], ["x", "y"], ["m", "s"], 1/1000000000000⟩,
+    .newRegion ⟨[1, 0], [3, 1], ["x", "y"], ["m", "m"], 1/1000⟩,
+    .newMesh 0 [4, 2] "x" [("a", 1), ("b", 1)], .meshOp 0 (.rotate90 "x" "y" 1 none true),
+    .meshOp 0 (.scale (.scalar 2) none false)]).meshes.map (fun mo => (mo.region, mo.n, mo.bc, mo.subs))
+    = [(2, [2, 4], "y", [("a", 3), ("b", 4)]), (8, [2, 4], "y", [("a", 9), ("b", 10)])] := by decide +kernel
+
+/-- non-vacuity of `inplace_step_frame` / `inplace_history_in_store` / `DFV.C14.subInv_after_inplace_history_in_store`: the
+session that builds `exM` (periodic, two touching subregions) from three caller-made Region objects ends in a
+good store with exclusive region objects whose mesh object 0 has the value `exM` (which satisfies `SubInv`
+and `BcWf`), held in the copies 3 (region), 4 and 5 -/
+def exSession : List Stmt :=
+  [.newRegion exM.region, .newRegion ⟨[2, 1, 0], [6, 3, 2], ["x", "y", "z"], ["m", "m", "m"], 1/1000⟩,
+   .newRegion ⟨[6, 0, 0], [8, 6, 2], ["p", "q", "r"], ["m", "s", "K"], 1/1000000000000⟩,
+   .newMesh 0 [4, 6, 1] "x" [("a", 1), ("b", 2)]]
+example : Good (run Store.empty exSession) ∧ RegExcl (run Store.empty exSession) := store_invariant_after_any_session _
+example : (run Store.empty exSession).meshes = [⟨3, [4, 6, 1], "x", [("a", 4), ("b", 5)]⟩] ∧
+    absMesh (run Store.empty exSession) ⟨3, [4, 6, 1], "x", [("a", 4), ("b", 5)]⟩ = exM := by decide +kernel
 
 end DFV.C13
